@@ -1,9 +1,14 @@
 #!/bin/sh
-# build.sh <variant> -> /verif/out/bin/vh_<variant>; always compiles from /repo's current working tree
+# build.sh <variant> <outdir> <group>... -> <outdir>/vh_<variant>; always compiles from /repo's current
+# working tree (or $VH_REPO_DIR for calibration against a scratch copy).  Only the named op groups
+# (harness/ops_<group>.h) are compiled in.
 set -e
 V=${1:-std}
+OUT=${2:-/verif/out/bin}; mkdir -p $OUT
+shift; shift || true
+GROUPS_DEF=""
+for g in "$@"; do GROUPS_DEF="$GROUPS_DEF -DVH_G_$(echo $g | tr a-z A-Z)=1"; done
 REPO=${VH_REPO_DIR:-/repo}
-OUT=/verif/out/bin; mkdir -p $OUT
 MODS="-DENABLE_MODULE_BPPP=1 -DENABLE_MODULE_ECDH=1 -DENABLE_MODULE_ECDSA_ADAPTOR=1 -DENABLE_MODULE_ECDSA_S2C=1 -DENABLE_MODULE_ELLSWIFT=1 -DENABLE_MODULE_EXTRAKEYS=1 -DENABLE_MODULE_GENERATOR=1 -DENABLE_MODULE_MUSIG=1 -DENABLE_MODULE_RANGEPROOF=1 -DENABLE_MODULE_SCHNORRSIG=1 -DENABLE_MODULE_SCHNORRSIG_HALFAGG=1 -DENABLE_MODULE_SURJECTIONPROOF=1 -DENABLE_MODULE_WHITELIST=1 -DENABLE_MODULE_RECOVERY=1"
 BASE="-DSECP256K1_ZKP_VERIF=1 -I$REPO -I$REPO/src -I$REPO/include -Wno-unused-function -Wno-unused-parameter"
 CC=gcc; OPT="-O2 -g"; CFG="-DCOMB_BLOCKS=43 -DCOMB_TEETH=6 -DECMULT_WINDOW_SIZE=15 -DUSE_ASM_X86_64=1"; TABLES=1; LIBS=""
@@ -22,9 +27,8 @@ case "$V" in
   *) echo "unknown variant $V" >&2; exit 2 ;;
 esac
 # the harness includes $REPO/src/secp256k1.c through a generated shim so that VH_REPO_DIR is honoured
-SHIM=/verif/out/bin/shim_$V; mkdir -p $SHIM/repo_link
-rm -f $SHIM/repo_link/repo; ln -s $REPO $SHIM/repo_link/repo
+SHIM=$OUT/shim_$V; mkdir -p $SHIM
 sed "s#\"../../repo/#\"$REPO/#" /verif/harness/vh_main.c > $SHIM/vh_main_$V.c
 SRC="$SHIM/vh_main_$V.c"
 if [ $TABLES = 1 ]; then SRC="$SRC $REPO/src/precomputed_ecmult.c $REPO/src/precomputed_ecmult_gen.c"; fi
-$CC $OPT $CFG $MODS $BASE -I/verif/harness $SRC -o $OUT/vh_$V $LIBS
+$CC $OPT $CFG $MODS $BASE $GROUPS_DEF -I/verif/harness $SRC -o $OUT/vh_$V $LIBS
